@@ -197,6 +197,12 @@ def run(lines, out, args):
             elif op == "class":
                 bs = [int(x) for x in f[2].split()]
                 ns = {"__slots__": ("slot_%s" % f[1],)} if len(f) > 3 and f[3] == "s" else {}      # `s`: a layout-carrying class
+                # instances of two classes in three are FALSY (an empty container-like object, an object with __bool__): legal
+                # everywhere an object is adapted, looked up, or unwrapped from a super proxy
+                if int(f[1]) % 3 == 1:
+                    ns["__bool__"] = lambda self: False
+                elif int(f[1]) % 3 == 2:
+                    ns["__len__"] = lambda self: 0
                 st["classes"][int(f[1])] = type("C%d_%s" % (serial[0], f[1]), tuple(st["classes"][b] for b in bs) or (object,), ns)
             elif op == "inst":
                 o = st["classes"][int(f[2])]()
